@@ -190,6 +190,11 @@ def select(prop, tier, seed):
     for the every-change tier (tuning.json) unless their role would be left without a quick instance;
     thorough: everything."""
     _load()
+    if tier == "rotall":
+        # measurement mode: every instance that any seed could put into the quick tier
+        if prop == "ALL":
+            return _select(prop, tier, seed)
+        return [e for e in _select(prop, "thorough", seed) if e.get("prop_tier", {}).get(prop, e["tier"]) != "thorough"]
     out = _select(prop, tier, seed)
     if tier == "thorough":
         return out
@@ -209,6 +214,14 @@ def select(prop, tier, seed):
 def _select(prop, tier, seed):
     out = []
     for e in _ENTRIES:
+        if prop == "ALL":
+            # measurement pseudo-property: every instance that belongs to some property's quick/rotation pool
+            if all(e.get("prop_tier", {}).get(q, e["tier"]) == "thorough" for q in e["props"]):
+                continue
+            if tier != "rotall":
+                continue
+            out.append(e)
+            continue
         if prop not in e["props"]:
             continue
         t = e.get("prop_tier", {}).get(prop, e["tier"])
